@@ -30,12 +30,12 @@ class UFModel(Module):
             for idx in np.ndindex(*lead):
                 feats = list(p[idx])
                 if self.ignore_last:
-                    feats = feats[:-1]
+                    feats = feats[:-int(self.ignore_last)]
                 for h in range(self.n_out):
                     out[idx + (h,)] = tm.uf("%s%d" % (self.uname, h), *feats)
             r = st.SymTensor(out, input.dtype)
         else:
-            x = input[..., :-1] if self.ignore_last else input
+            x = input[..., :-int(self.ignore_last)] if self.ignore_last else input
             f = x.shape[-1]
             g = torch.Generator().manual_seed(self.seed + 13 * f)
             w1 = torch.randn(f, 5, generator=g, dtype=torch.float64)
@@ -124,3 +124,32 @@ def market(c, N, T, deriv_kind="european", hedge_kind="underlier", cost_sym=Fals
         listed.list(pricer, cost=cost("listed.cost"))
         hedge = [ul, listed]
     return {"ul": ul, "derivative": deriv, "hedge": hedge}
+
+
+FEATURES = ["log_spot_of_passthrough_pricer", "moneyness", "log_moneyness", "max_moneyness", "max_log_moneyness", "time_to_maturity", "expiry_time",
+            "volatility", "variance", "underlier_spot", "underlier_log_spot", "zeros", "empty", "barrier_up", "barrier_down",
+            "spot", "log_spot", "ones", "module_output"]
+
+
+def make_feature(c, name):
+    from pfhedge import features as Fe
+    from pfhedge.features import get_feature
+    from pfhedge.features.features import Spot, UnderlierSpot, Ones
+
+    if name == "underlier_log_spot":
+        return UnderlierSpot(log=True)
+    if name == "barrier_up":
+        return Fe.Barrier(api.real(c, "B"), up=True)
+    if name == "barrier_down":
+        return Fe.Barrier(api.real(c, "B"), up=False)
+    if name == "spot":
+        return Spot()
+    if name in ("log_spot", "log_spot_of_passthrough_pricer"):
+        return Spot(log=True)
+    if name == "ones":
+        return Ones()
+    if name == "module_output":
+        return Fe.ModuleOutput(UFModel(1, name="G"), inputs=["log_moneyness", "time_to_maturity"])
+    return get_feature(name)
+
+
